@@ -28,9 +28,9 @@ func hasMutation(kinds ...string) func(path []Op) bool {
 // is drained and compared with the reference order.
 func queueJob(name string, size int, thorough bool) *job {
 	alpha := []Op{{K: "put"}, {K: "take"}, {K: "empty"}}
-	depth := 10
+	depth := 16
 	if thorough {
-		depth = 13
+		depth = 24
 	}
 	j := &job{name: name, depth: depth, alpha: func(int, []Op) []Op { return alpha }, nontriv: hasMutation("put"),
 		rule: fmt.Sprintf("Queue initial size %d (growth at %d, %d, … elements; wrap-around); alphabet Put(next) Take Empty", size, size, 2*size)}
@@ -49,8 +49,8 @@ func queueJob(name string, size int, thorough bool) *job {
 			return "linear"
 		}
 		fail := func(what, msg string) result {
-			res.class = "queue-" + what + ":" + shape()
-			res.err = msg + fmt.Sprintf("; history %v", path)
+			res.class = "queue-" + what
+			res.err = msg + fmt.Sprintf(" (queue %s); history %v", shape(), path)
 			return res
 		}
 		for i, op := range path {
@@ -70,7 +70,7 @@ func queueJob(name string, size int, thorough bool) *job {
 					}
 				} else {
 					if !ok || v != ref[0] {
-						return fail("take-wrong", fmt.Sprintf("step %d: Take returned (%v,%v), reference head %d", i, v, ok, ref[0]))
+						return fail("fifo-order", fmt.Sprintf("step %d: Take returned (%v,%v), reference head %d", i, v, ok, ref[0]))
 					}
 					ref = ref[1:]
 				}
@@ -84,6 +84,7 @@ func queueJob(name string, size int, thorough bool) *job {
 			}
 		}
 		res.key = collection.VerifC16DumpQueue(q) + "#" + fmt.Sprint(ref)
+		res.tags = append(res.tags, shape())
 		if q.Empty() != (len(ref) == 0) {
 			return fail("empty-wrong", fmt.Sprintf("final observation: Empty()=%v with %d elements in the reference", q.Empty(), len(ref)))
 		}
@@ -97,7 +98,7 @@ func queueJob(name string, size int, thorough bool) *job {
 			got = append(got, iv)
 		}
 		if fmt.Sprint(got) != fmt.Sprint(ref) {
-			return fail("order-wrong", fmt.Sprintf("final observation: draining gives %v, reference %v", got, ref))
+			return fail("fifo-order", fmt.Sprintf("final observation: draining gives %v, reference %v", got, ref))
 		}
 		return res
 	}
@@ -110,9 +111,9 @@ func queueJob(name string, size int, thorough bool) *job {
 // in insertion order. Add(v) uses v = number of adds so far.
 func ringJob(name string, n int, thorough bool) *job {
 	alpha := []Op{{K: "add"}, {K: "take"}}
-	depth := 10
+	depth := 4*n + 4
 	if thorough {
-		depth = 14
+		depth = 8*n + 8
 	}
 	j := &job{name: name, depth: depth, alpha: func(int, []Op) []Op { return alpha }, nontriv: hasMutation("add"),
 		rule: fmt.Sprintf("Ring n=%d; alphabet Add(next) Take; up to %d adds (index folds back at 2n)", n, depth)}
@@ -143,8 +144,8 @@ func ringJob(name string, n int, thorough bool) *job {
 				case len(ref) > n:
 					shape = "wrapped"
 				}
-				res.class = "ring-take-wrong:" + shape
-				res.err = fmt.Sprintf("%s after %d adds: Take returned %v, reference (last %d in order) %v; history %v", step, len(ref), got, n, want, path)
+				res.class = "ring-take-wrong"
+				res.err = fmt.Sprintf("%s after %d adds (" + shape + "): Take returned %v, reference (last %d in order) %v; history %v", step, len(ref), got, n, want, path)
 			}
 			return ok
 		}
@@ -163,6 +164,12 @@ func ringJob(name string, n int, thorough bool) *job {
 			}
 		}
 		res.key = collection.VerifC16DumpRing(rg) + "#" + fmt.Sprint(len(ref))
+		switch {
+		case len(ref) >= 2*n:
+			res.tags = append(res.tags, "index-folded")
+		case len(ref) > n:
+			res.tags = append(res.tags, "wrapped")
+		}
 		check("final observation")
 		return res
 	}
@@ -257,8 +264,8 @@ func setJob(name, kind string, thorough bool) *job {
 		}
 		ref := map[any]bool{}
 		fail := func(what, msg string) result {
-			res.class = "set-" + what + ":" + kind
-			res.err = msg + fmt.Sprintf("; history %v", path)
+			res.class = "set-" + what
+			res.err = msg + fmt.Sprintf(" (%s set); history %v", kind, path)
 			return res
 		}
 		sortedRef := func(filter func(any) bool) []string {
